@@ -107,6 +107,29 @@ def _resolve_reborrow(cj, place, hops=6):
     return place
 
 
+def _all_places(blk):
+    """every place object mentioned by the statements and the terminator of a block (JSON)"""
+    out = []
+
+    def walk(j):
+        if isinstance(j, list):
+            for x in j:
+                walk(x)
+        elif isinstance(j, dict):
+            if _is_place(j):
+                out.append(j)
+                for e in j.get("p", []) or []:
+                    if isinstance(e, dict) and isinstance(e.get("idx"), int):
+                        out.append({"l": e["idx"]})
+                return
+            for k, v in j.items():
+                if k != "sp":
+                    walk(v)
+    walk(blk.get("stmts", []))
+    walk(blk.get("term", {}))
+    return out
+
+
 def _remap_term_blocks(t, bm):
     for k in ("target", "unwind", "otherwise"):
         if isinstance(t.get(k), int):
@@ -153,7 +176,40 @@ def inline_call(cj, bi, kj):
         nb["inlined_from"] = kj["path"]
         nb["inl_chain"] = list(blk.get("inl_chain", [])) + [kj["path"]]
         cj["blocks"].append(nb)
+    # a `&mut x` handed to a parameter that the callee only ever dereferences (`fn bump(i: &mut usize) { *i += 1 }`): every
+    # `*param` in the spliced body already names x itself, so the reference is dead — it is dropped together with the
+    # statements that made it, and x is an ordinary variable of the caller again (not one "whose address is taken")
+    dead_params = set()
+    for pidx, base in subst.items():
+        only_deref = True
+        for kb in kj["blocks"]:
+            for pl in _all_places(kb):
+                if pl["l"] == pidx and not (pl.get("p") and pl["p"][0] == "*"):
+                    only_deref = False
+        if only_deref:
+            dead_params.add(pidx)
     for i, a in enumerate(term["args"]):
+        if (i + 1) in dead_params:
+            pl = a.get("move") or a.get("copy")
+            chain = []
+            cur = pl["l"] if isinstance(pl, dict) and not pl.get("p") else None
+            for _ in range(4):
+                if cur is None:
+                    break
+                idx = [k for k, s_ in enumerate(blk["stmts"]) if s_.get("k") == "assign" and isinstance(s_.get("lhs"), dict) and s_["lhs"].get("l") == cur and not s_["lhs"].get("p")]
+                if len(idx) != 1 or (blk["stmts"][idx[0]].get("rv") or {}).get("k") != "ref":
+                    break
+                uses = sum(1 for b2 in cj["blocks"] for pl2 in _all_places(b2) if pl2["l"] == cur)
+                # its definition, and one use (the call argument or the reborrow that was just queued for removal)
+                if uses != 2:
+                    break
+                chain.append(idx[0])
+                src = blk["stmts"][idx[0]]["rv"]["p"]
+                cur = src["l"] if src.get("p") == ["*"] else None
+            if chain:
+                for k in sorted(chain, reverse=True):
+                    del blk["stmts"][k]
+                continue
         blk["stmts"].append({"k": "assign", "lhs": {"l": lm(i + 1)}, "rv": {"k": "use", "a": copy.deepcopy(a)}, "sp": sp, "inlined_arg": kj["path"]})
     blk["term"] = {"k": "goto", "target": bm(0), "sp": sp, "inlined_call": kj["path"]}
     cj.setdefault("inlined", []).append(kj["path"])
